@@ -408,6 +408,12 @@ def run_case(idx, rng, P, rep):
                 # an unchecked selector adds the value it validates (its default, also a re-checked None) to its objects
                 same = list(gv) == list(exp_v) or (merged.get('check_on_set') is False and list(gv) == list(exp_v) + [merged['default']])
                 merged['objects'] = list(gv)        # descendants inherit what is really there
+            if s == 'names' and not same and merged.get('check_on_set') is False and isinstance(exp_v, dict) and exp_v and isinstance(gv, dict):
+                # ... and, when the objects were declared with names, to the name mapping as well (under its str(), the name
+                # get_range() lists it under; param fix #132)
+                same = list(gv.items()) == list(exp_v.items()) + [(str(merged['default']), merged['default'])]
+                if same:
+                    merged['names'] = dict(gv)
             if not same:
                 src = 'explicit' if s in exp else ('inherited' if any(s in a['slots'] for a in ancestors) else 'type default')
                 viol(f'slot/{s}/{src}', f'{cls.__name__} ({tname}, explicit {sorted(exp)}) slot {s}: got {gv!r}, resolver says {exp_v!r} '
